@@ -1,8 +1,8 @@
 (* Property C08 — demuxer output depends on the stream's bytes, not on how they are read or framed
    (theorems only; proofs in Proofs/ReaderProofs.v, Proofs/DemuxProofs.v and Proofs/WideProofs.v). *)
 From Coq Require Import ZArith List Bool.
-Require Import Base.Bits Base.Iter Gen.Consts Gen.Types Model.Packet Model.Reader Model.Demux Proofs.ReaderProofs Proofs.DemuxProofs
-  Proofs.WideProofs.
+Require Import Base.Bits Base.Iter Gen.Consts Gen.Types Model.Packet Model.Reader Model.Demux Model.DemuxFull Model.Muxer
+  Proofs.ReaderProofs Proofs.DemuxProofs Proofs.WideProofs.
 Import ListNotations.
 Open Scope Z_scope.
 
@@ -130,3 +130,55 @@ Example C08_wide_192 :
   run_iter (parse_packet no_skip) (syncByte :: extra ++ rest) = run_iter (parse_packet no_skip) (syncByte :: rest) /\
   narrow (syncByte :: extra ++ rest) = syncByte :: rest.
 Proof. vm_compute. repeat split; reflexivity. Qed.
+
+(* ---- (e) at the level of the property text: the whole demuxer, packets and data ---- *)
+
+(* a stream of size-byte packets (size = 188+k given explicitly through the packet-size option; any k), followed by any
+   short tail, read through any kind of reader: EVERY sequence of NextPacket / NextData calls -- any unit parsers,
+   packets parser, skipper -- returns exactly what it returns on the stream of the 188-byte forms read with size 188.
+   Proof: simulation between the two runs (same data buffer, pool and program map; the readers hold n buffers and
+   their narrow forms), with C08_wide for each packet read *)
+Theorem C08_wide_demux : forall P prs skip size, C_MpegTsPacketSize <= size -> forall cs bufs tail tail' k k',
+  Forall (sized size) bufs -> Z.of_nat (length tail) < size -> Z.of_nat (length tail') < C_MpegTsPacketSize ->
+  calls P prs skip cs (init_dstate (new_reader (concat bufs ++ tail) None k) size) =
+  calls P prs skip cs (init_dstate (new_reader (concat (map narrow bufs) ++ tail') None k') C_MpegTsPacketSize).
+Proof. exact calls_wide. Qed.
+Print Assumptions C08_wide_demux.
+
+(* satisfiable and not vacuous: a stream written by the muxer model (PAT, PMT, PES, tables again, PES), each packet
+   widened to 204 bytes by 16 bytes after the sync byte (one of them a 0x47), read with size 204 and a truncated
+   trailing packet: NextPacket (the first PAT, raw), then NextData to the end -- the packet, then 4 tables and
+   2 PES come out (the first PMT is dropped: its PAT was consumed by NextPacket), then ErrNoMorePackets -- the same as
+   from the 188-byte stream *)
+Definition ex_wide_es : PMTElementaryStream :=
+  {| PMTElementaryStream_ElementaryPID := 256; PMTElementaryStream_ElementaryStreamDescriptors := [];
+     PMTElementaryStream_StreamType := 27 |}.
+Definition ex_wide_md : MuxerData :=
+  {| MuxerData_PID := 256; MuxerData_AdaptationField := None;
+     MuxerData_PES := Some {| PESData_Data := [1; 2; 3; 4; 5];
+                              PESData_Header := Some {| PESHeader_OptionalHeader := None; PESHeader_PacketLength := 0;
+                                                        PESHeader_StreamID := 191 |} |} |}.
+Definition ex_wide_packets : list (list Z) :=
+  map (@concat Z) (concat (map mo_groups (snd (mux_run (new_muxer 40)
+    [MAdd ex_wide_es; MSetPCR 256; MWriteTables; MWriteData ex_wide_md; MWriteTables; MWriteData ex_wide_md])))).
+Definition widen (extra b : list Z) : list Z := match b with [] => [] | x :: t => x :: extra ++ t end.
+
+Example C08_wide_demux_example :
+  let extra := [0; 1; 71; 3; 4; 5; 6; 7; 8; 9; 10; 11; 12; 13; 14; 15] in
+  let bufs := map (widen extra) ex_wide_packets in
+  let tail := firstn 100 (nth 0 bufs []) in
+  let cs := CallPacket :: repeat CallData 10 in
+  length bufs = 8%nat /\ Forall (sized 204) bufs /\ map narrow bufs = ex_wide_packets /\
+  Z.of_nat (length tail) < 204 /\
+  map (@is_ok _) (calls full_parsers None no_skip cs (init_dstate (new_reader (concat bufs ++ tail) None Plain) 204)) =
+    [true; true; true; true; true; true; true; false; false; false; false] /\
+  calls full_parsers None no_skip cs (init_dstate (new_reader (concat bufs ++ tail) None Plain) 204) =
+  calls full_parsers None no_skip cs (init_dstate (new_reader (concat ex_wide_packets ++ [71; 0]) None Seekable) 188).
+Proof.
+  intros extra bufs tail cs.
+  assert (Hall : Forall (sized 204) bufs) by (vm_compute; repeat constructor).
+  assert (Hn : map narrow bufs = ex_wide_packets) by (vm_compute; reflexivity).
+  split; [vm_compute; reflexivity|]. split; [exact Hall|]. split; [exact Hn|].
+  split; [vm_compute; reflexivity|]. split; [vm_compute; reflexivity|].
+  rewrite <- Hn. apply (calls_wide full_parsers None no_skip 204); [discriminate|exact Hall|vm_compute; reflexivity|vm_compute; reflexivity].
+Qed.
